@@ -133,53 +133,60 @@ pub struct ShapeIterator<'a, T: Read, S: ReadableShape> {
     // From where we read the shapes
     source: &'a mut T,
     // Current position in bytes in the source.
-    current_pos: usize,
+    // (Belongs to the reader, so that it outlives the iterator)
+    current_pos: &'a mut usize,
     // How many bytes the header said there are in
     // the file.
     file_length: usize,
-    // Iterator over the shape indices, used to seek
+    // The shape indices, used to seek
     // to the start of a shape when reading
-    shapes_indices: Option<std::slice::Iter<'a, ShapeIndex>>,
+    shapes_indices: Option<&'a [ShapeIndex]>,
+    // Index of the next shape to read (when there are shape_indices).
+    // (Belongs to the reader, so that it outlives the iterator)
+    next_shape: &'a mut usize,
 }
 
 impl<T: Read + Seek, S: ReadableShape> Iterator for ShapeIterator<'_, T, S> {
     type Item = Result<S, crate::Error>;
 
     fn next(&mut self) -> Option<Self::Item> {
-        if self.current_pos >= self.file_length {
-            None
-        } else {
-            if let Some(ref mut shapes_indices) = self.shapes_indices {
-                // Its 'safer' to seek to the shape offset when we have the `shx` file
-                // as some shapes may not be stored sequentially and may contain 'garbage'
-                // bytes between them
-                let start_pos = match words_to_bytes(shapes_indices.next()?.offset) {
-                    Ok(pos) => pos,
-                    Err(e) => return Some(Err(e)),
-                };
-                if usize::try_from(start_pos).ok() != Some(self.current_pos) {
-                    if let Err(err) = self.source.seek(SeekFrom::Start(start_pos)) {
-                        return Some(Err(err.into()));
-                    }
-                    self.current_pos = start_pos as usize;
-                }
-            }
-            let start_pos = std::mem::replace(&mut self.current_pos, UNKNOWN_POS);
-            let (hdr, shape) = match read_one_shape_as::<T, S>(self.source) {
+        if let Some(shapes_indices) = self.shapes_indices {
+            // Its 'safer' to seek to the shape offset when we have the `shx` file
+            // as some shapes may not be stored sequentially and may contain 'garbage'
+            // bytes between them
+            let shape_index = shapes_indices.get(*self.next_shape)?;
+            *self.next_shape += 1;
+            let start_pos = match words_to_bytes(shape_index.offset) {
+                Ok(pos) => pos,
                 Err(e) => return Some(Err(e)),
-                Ok(hdr_and_shape) => hdr_and_shape,
             };
-            self.current_pos = start_pos
-                .saturating_add(record::RecordHeader::SIZE)
-                .saturating_add(hdr.record_size as usize * 2);
-            Some(Ok(shape))
+            if usize::try_from(start_pos).ok() != Some(*self.current_pos) {
+                *self.current_pos = UNKNOWN_POS;
+                if let Err(err) = self.source.seek(SeekFrom::Start(start_pos)) {
+                    return Some(Err(err.into()));
+                }
+                *self.current_pos = start_pos as usize;
+            }
+        } else if *self.current_pos >= self.file_length {
+            return None;
         }
+        let start_pos = std::mem::replace(self.current_pos, UNKNOWN_POS);
+        let (hdr, shape) = match read_one_shape_as::<T, S>(self.source) {
+            Err(e) => return Some(Err(e)),
+            Ok(hdr_and_shape) => hdr_and_shape,
+        };
+        *self.current_pos = start_pos
+            .saturating_add(record::RecordHeader::SIZE)
+            .saturating_add(hdr.record_size as usize * 2);
+        Some(Ok(shape))
     }
 
     fn size_hint(&self) -> (usize, Option<usize>) {
         self.shapes_indices
-            .as_ref()
-            .map(|s| s.size_hint())
+            .map(|s| {
+                let remaining = s.len().saturating_sub(*self.next_shape);
+                (remaining, Some(remaining))
+            })
             .unwrap_or((0, None))
     }
 }
@@ -221,6 +228,10 @@ pub struct ShapeReader<T> {
     source: T,
     header: header::Header,
     shapes_index: Option<Vec<ShapeIndex>>,
+    // Current position in bytes in the source
+    current_pos: usize,
+    // Index of the shape the next iteration starts from
+    next_shape: usize,
 }
 
 impl<T: Read> ShapeReader<T> {
@@ -253,6 +264,8 @@ impl<T: Read> ShapeReader<T> {
             source,
             header,
             shapes_index: None,
+            current_pos: header::HEADER_SIZE as usize,
+            next_shape: 0,
         })
     }
 
@@ -283,6 +296,8 @@ impl<T: Read> ShapeReader<T> {
             source,
             header,
             shapes_index,
+            current_pos: header::HEADER_SIZE as usize,
+            next_shape: 0,
         })
     }
 
@@ -377,9 +392,10 @@ impl<T: Read + Seek> ShapeReader<T> {
         ShapeIterator {
             _shape: std::marker::PhantomData,
             source: &mut self.source,
-            current_pos: header::HEADER_SIZE as usize,
+            current_pos: &mut self.current_pos,
             file_length: words_to_bytes(self.header.file_length).unwrap_or(0) as usize,
-            shapes_indices: self.shapes_index.as_ref().map(|s| s.iter()),
+            shapes_indices: self.shapes_index.as_deref(),
+            next_shape: &mut self.next_shape,
         }
     }
 
@@ -445,6 +461,8 @@ impl<T: Read + Seek> ShapeReader<T> {
                 return Some(Err(e));
             }
 
+            self.current_pos = UNKNOWN_POS;
+            self.next_shape = 0;
             let (_, shape) = match read_one_shape_as::<T, S>(&mut self.source) {
                 Err(e) => return Some(Err(e)),
                 Ok(hdr_and_shape) => hdr_and_shape,
@@ -456,6 +474,7 @@ impl<T: Read + Seek> ShapeReader<T> {
             {
                 return Some(Err(Error::IoError(e)));
             }
+            self.current_pos = header::HEADER_SIZE as usize;
             Some(Ok(shape))
         } else {
             Some(Err(Error::MissingIndexFile))
@@ -481,10 +500,13 @@ impl<T: Read + Seek> ShapeReader<T> {
                 .map(|shape_idx| words_to_bytes(shape_idx.offset))
                 .transpose()?;
 
-            match offset {
+            self.current_pos = UNKNOWN_POS;
+            let new_pos = match offset {
                 Some(n) => self.source.seek(SeekFrom::Start(n)),
                 None => self.source.seek(SeekFrom::End(0)),
             }?;
+            self.current_pos = usize::try_from(new_pos).unwrap_or(UNKNOWN_POS);
+            self.next_shape = index.min(shapes_index.len());
             Ok(())
         } else {
             Err(Error::MissingIndexFile)
